@@ -1537,6 +1537,26 @@ pub fn judge(case: &Case, l: &mut Local) {
                 _ => {}
             }
         }
+        // ... and through the validate_mt workflow function on the same text (every point with two or more
+        // expected codes, one in sixteen of the others): its report must name the same modelled codes
+        if (exp.iter().filter(|c| !c.starts_with('?')).count() >= 2 || crate::rng::hash_bytes2(&case.mt, &text) % 16 == 0)
+            && let Ok(Ok(pj)) = guard(|| crate::plug::validate_mt(&format!("{{1:F01BANKBEBBAXXX0000000000}}{{2:I{}BANKDEFFXXXXN}}{{4:\n{text}\n-}}", case.mt)))
+            && let Some(perrs) = pj["errors"].as_array()
+        {
+            l.count("plugin-route-judged", 1);
+            let lines: Vec<&str> = perrs.iter().filter_map(|e| e.as_str()).collect();
+            for c in &case.modelled {
+                if exp.contains(&format!("?{c}")) {
+                    continue;
+                }
+                let named = lines.iter().any(|x| x.contains(c.as_str()));
+                match (exp.contains(c), named, got2.contains(c)) {
+                    (true, false, true) => v(l, &case.mt, c, "missing-in-plugin-report", format!("MT{}: code {c} is reported by validate_network_rules(false) on the parsed text but not by the validate_mt plugin (point {:?}); plugin report: {:?}", case.mt, case.point, lines.iter().map(|x| x.chars().take(60).collect::<String>()).collect::<Vec<_>>()), case),
+                    (false, true, false) => v(l, &case.mt, c, "spurious-in-plugin-report", format!("MT{}: code {c} is named by the validate_mt plugin although the message satisfies that rule (point {:?})", case.mt, case.point), case),
+                    _ => {}
+                }
+            }
+        }
     }
     // C13 coherence on the same message (full envelope needed: wrap the body in a corpus envelope)
 }
